@@ -48,6 +48,61 @@ def list_t(t):
     return ("list", t)
 
 
+def _pure_range_call(e):
+    return (isinstance(e, ast.Call) and isinstance(e.func, ast.Name) and e.func.id == "range" and not e.keywords
+            and not any(isinstance(n, ast.Call) for a in e.args for n in ast.walk(a)))
+
+
+def desugar(body, where):
+    """Meaning-preserving rewrites of a statement list into the subset the translator reads:
+       * `r = range(a, b, c)` immediately followed by the one statement that uses r, as the thing iterated over (the
+         arguments contain no call, so evaluating them one statement later gives the same values)  ->  range inlined;
+       * `x = [E for v in IT]` (one generator, no condition; v is not used afterwards)  ->  `x = []` and
+         `for v in IT: x.append(E)`."""
+    out = list(body)
+    changed = True
+    while changed:
+        changed = False
+        for i, s in enumerate(out):
+            if (isinstance(s, ast.Assign) and len(s.targets) == 1 and isinstance(s.targets[0], ast.Name) and _pure_range_call(s.value) and i + 1 < len(out)):
+                name = s.targets[0].id
+                loads = [n for st in out for n in ast.walk(st) if isinstance(n, ast.Name) and n.id == name and isinstance(n.ctx, ast.Load)]
+                stores = [n for st in out for n in ast.walk(st) if isinstance(n, ast.Name) and n.id == name and isinstance(n.ctx, ast.Store)]
+                nxt = out[i + 1]
+                site = None
+                if isinstance(nxt, ast.For) and isinstance(nxt.iter, ast.Name) and nxt.iter.id == name:
+                    site = ("for", nxt)
+                elif (isinstance(nxt, ast.Assign) and isinstance(nxt.value, ast.ListComp) and len(nxt.value.generators) == 1
+                      and isinstance(nxt.value.generators[0].iter, ast.Name) and nxt.value.generators[0].iter.id == name):
+                    site = ("comp", nxt)
+                if site and len(loads) == 1 and len(stores) == 1:
+                    import copy
+                    nxt2 = copy.deepcopy(nxt)
+                    if site[0] == "for":
+                        nxt2.iter = s.value
+                    else:
+                        nxt2.value.generators[0].iter = s.value
+                    out[i:i + 2] = [nxt2]
+                    changed = True
+                    break
+            if (isinstance(s, ast.Assign) and len(s.targets) == 1 and isinstance(s.targets[0], ast.Name) and isinstance(s.value, ast.ListComp)
+                    and len(s.value.generators) == 1):
+                g = s.value.generators[0]
+                if not g.ifs and not g.is_async and isinstance(g.target, ast.Name):
+                    v = g.target.id
+                    later = [n for st in out[i + 1:] for n in ast.walk(st) if isinstance(n, ast.Name) and n.id == v]
+                    inside = [n for n in ast.walk(s.value.elt) if isinstance(n, ast.Name) and n.id == s.targets[0].id]
+                    if not later and not inside and v != s.targets[0].id:
+                        tgt = s.targets[0].id
+                        init = ast.Assign(targets=[ast.Name(id=tgt, ctx=ast.Store())], value=ast.List(elts=[], ctx=ast.Load()), lineno=s.lineno)
+                        app = ast.Expr(value=ast.Call(func=ast.Attribute(value=ast.Name(id=tgt, ctx=ast.Load()), attr="append", ctx=ast.Load()), args=[s.value.elt], keywords=[]))
+                        loop = ast.For(target=ast.Name(id=v, ctx=ast.Store()), iter=g.iter, body=[app], orelse=[], lineno=s.lineno)
+                        out[i:i + 1] = [ast.fix_missing_locations(init), ast.fix_missing_locations(loop)]
+                        changed = True
+                        break
+    return out
+
+
 class Tr:
     def __init__(self, tree):
         self.tree = tree
@@ -57,6 +112,7 @@ class Tr:
         self.sigs = {}      # (class, method) -> ([(pname, type)], ret type)
         self.calls = {}     # (class, method) -> set of callees
         self.defs = {}      # (class, method) -> Coq text
+        self.helpers = []   # private methods reached from the translated ones
         self.fresh = 0
         for cname in METHODS:
             cls = find_class(tree, cname)
@@ -329,7 +385,12 @@ class Tr:
                     expect(key in self.funcs, f"{where}: unknown method {key}")
                     if not self.static[key]:
                         recv = r
-                expect(key[1] in METHODS[key[0]], f"{where}: calls {key[0]}.{key[1]}, which is not translated")
+                if key[1] not in METHODS[key[0]]:
+                    # a private helper of the class (a rewrite extracted it): translated like the methods, unfolded by the
+                    # equivalence proofs (Hint Unfold ... : tr_helpers)
+                    expect(key[1].startswith("_") and not key[1].startswith("__"), f"{where}: calls {key[0]}.{key[1]}, which is not translated")
+                    if key not in self.helpers:
+                        self.helpers.append(key)
                 params, ret = self.sig(key)
                 want = params[1:] if recv is not None else params
                 expect(len(e.args) == len(want), f"{where}: arity (default arguments are outside the subset)")
@@ -578,7 +639,7 @@ class Tr:
         self.fresh = 0
         env = {p: (self.var(p), t) for p, t in params}
         self.calls.setdefault(key, set())
-        body = self.stmts(list(fn.body), env, key, ret, "  ")
+        body = self.stmts(desugar(list(fn.body), f"{key[0]}.{key[1]}"), env, key, ret, "  ")
         ps = " ".join(f"({self.var(p)} : {self.coq_type(t)})" for p, t in params)
         text = f"(* {key[0]}.{key[1]}, id_manager.py:{fn.lineno}-{fn.end_lineno} *)\n"
         text += f"Definition {self.fname(key)} {ps} : M {self.coq_type(ret)} :=\n{body}.\n"
@@ -593,6 +654,12 @@ class Tr:
         for k in keys:
             expect(k in self.funcs, f"{k[0]}.{k[1]}: method not found")
             self.function(k)
+        i = 0
+        while i < len(self.helpers):
+            expect(len(self.helpers) <= 12, "more than 12 helper methods: outside what the translator follows")
+            self.function(self.helpers[i])
+            i += 1
+        keys = keys + list(self.helpers)
         # emit in dependency order (callees first); recursion is outside the subset
         done, order = set(), []
 
@@ -626,6 +693,10 @@ def gen_pytrans(repo, out):
     tr = Tr(tree)
     order = tr.run()
     t = HEADER_TR
+    t += "Create HintDb tr_helpers.\n\n"
     for k in order:
-        t += tr.defs[k] + "\n"
+        t += tr.defs[k]
+        if k in tr.helpers:
+            t += f"#[global] Hint Unfold {tr.fname(k)} : tr_helpers.\n"
+        t += "\n"
     out.add("IdSpaceTr.v", t)
